@@ -1,14 +1,15 @@
 # C15 spec (see tools/props.py)
 SPEC = {
         "ready": True,
-        "sources": ["c15.cpp", "c15_b.cpp", "c15_c.cpp"], "lib": [],
+        "sources": ["c15.cpp", "c15_b.cpp", "c15_c.cpp", "c15_d.cpp", "c15_e.cpp"], "lib": [],
         "technique": "exhaustive enumeration of integer-lattice lines, planes, spheres, triangles and matrices against exact rational (integer numerator/denominator) oracles",
-        "level_text": "Every line, plane, sphere, triangle and vector pair of the stated integer lattices and direction alphabet is run through the real Line3/Plane3/Sphere3/LineAlgo/VecAlgo code for float and double; because the data are integers the geometric definition gives a rational answer, which is evaluated exactly and compared under an a-priori rounding bound; nearly parallel and parallel line pairs are swept over 10^-j perturbations down to exact parallelism.",
+        "level_text": "Every line, plane, sphere, triangle and vector pair of the stated integer lattices and direction alphabet is run through the real Line3/Plane3/Sphere3/LineAlgo/VecAlgo code for float and double; because the data are integers the geometric definition gives a rational answer, which is evaluated exactly and compared under an a-priori rounding bound; nearly parallel and parallel line pairs are swept over 10^-j perturbations down to exact parallelism. Added after the clause audit: every lattice case of closestPoints / closestPointTo(Line3) / distanceTo(Line3), Plane3::intersect(T), Sphere3::intersect(T) and the triangle intersect() is repeated with all points multiplied by 2^k (float |k| <= 28, double |k| <= 250; the oracle and tolerance scale exactly); lines meeting a plane / triangle at an angle of exactly 2^-k (k up to and beyond the overflow of the hit parameter, cancellation-free exact oracle); Plane3 x Matrix44 for all 6960 linear parts over {-1,0,1} with determinant +-1 (side preservation for the 3480 with det +1, and for projective matrices with det > 0, w > 0); closestVertex for V2f/V2d/V2i/V3i/V4f/V4d/V4i with the exact integer oracle; Sphere3::intersectT with the origin 2^k from the sphere, judged as far as the a-priori cancellation bound of B^2-4C allows.",
         "level_note": "Bounded to the stated lattices (coordinates |x| <= 2, directions with exact or near-exact normalisation plus generic ones, radii {0,1,3,5,7}, 24 cube rotations x dyadic scales); tolerances come from the error analysis written next to each check; the sense of rotation of rotatePoint is undocumented and only required to be consistent.",
         "deadline": {"quick": 200, "thorough": 840},
         "rule": "exhaustive enumeration of lattice primitives on the real code; non-trivial = input is, by an exact integer predicate, "
                 "skew / intersecting / parallel / perpendicular / nearly parallel (lines), on/above/below (plane points), crossing or parallel "
                 "(line vs plane), miss / tangent / origin inside / outside / on the sphere, through the interior / outside / parallel / "
-                "degenerate / front / back (triangle), reflection or non-uniform scale (plane x matrix), tie (closestVertex)",
+                "degenerate / front / back (triangle), reflection or non-uniform scale or shear / non-axis integer map (plane x matrix), tie (closestVertex, every Vec type), scaled up / down by 2^k, "
+                "line at angle 2^-k to the plane (parameter representable / overflowing / subnormal angle), far-origin sphere (two positive roots / behind / miss)",
         "assumptions": ["long double has a 64-bit significand (x86-64): every rational oracle value is rounded once, to 2^-64 relative"],
     }
